@@ -782,7 +782,10 @@ def desugar_entry_handles(blocks, locals_):
         blk['stmts'].append(B.use(MM, m_op))
         blk['stmts'].append(B.use(KK, k_op))
         r0 = key_ref(blk['stmts'])
-        blk['term'] = B.call(mcall('contains_key'), [_cp(MM), _mv(r0)], HAS, t['target'])
+        # the presence test only reads the map: hand it a shared reborrow (a `&mut` argument would count as a write)
+        MS = B.local({'k': 'ref', 'mut': False, 'ty': (locals_[MM]['ty'].get('ty') or UNK_TY), 's': '&?'})
+        blk['stmts'].append(B.assign(_pl(MS), {'k': 'ref', 'mut': False, 'place': _pl(MM, [{'k': 'deref'}])}))
+        blk['term'] = B.call(mcall('contains_key'), [_mv(MS), _mv(r0)], HAS, t['target'])
         kill = set()
         for kind, bi, si in plan:
             if kind == 'discr':
